@@ -549,7 +549,28 @@ def eval_foreign_salt(case):
     return out
 
 
-EVALS = {"foreign_salt": eval_foreign_salt, "salt_cost": eval_salt_cost, "interop": eval_interop, "fresh": eval_fresh, "identify": eval_identify, "context": eval_context, "farcost": eval_farcost}
+def eval_bsha_prefix(case):
+    """bcrypt-sha256 made from a salt string that carries another bcrypt prefix ($2a$ / $2y$: the same function): the
+    libpass hasher refuses it (ValueError), or else what it writes is a hash of the shared format (which names 2b only)"""
+    p, salt, rounds, pre = case["password"], case["salt"], case["rounds"], case["prefix"]
+    lp = lp_hasher("bcrypt_sha256", rounds)
+    out = []
+    try:
+        h = lp.hash(p, salt=b"$" + pre.encode() + b"$%02d$" % rounds + salt.encode("ascii"))
+    except ValueError:
+        return out
+    except Exception as e:  # noqa: BLE001
+        return [(f"C20|bcrypt_sha256|salt_prefix:{pre}:hash_raises:{_exc(e)}", f"libpass bcrypt_sha256 hash(salt='${pre}$...') raised {e!r}")]
+    for side in ("libpass", "passlib"):
+        r = _verify(side, "bcrypt_sha256", rounds, h, p)
+        if r[0] == "exc":
+            out.append((f"C20|bcrypt_sha256|salt_prefix:{pre}:{side}_verify:raises:{_exc(r[1])}", f"libpass bcrypt_sha256 hash({p!r}, salt='${pre}$..') = {h!r}; {side} verify raised {r[1]!r}"))
+        elif r[1] is not True:
+            out.append((f"C20|bcrypt_sha256|salt_prefix:{pre}:{side}_verify:own_password_rejected", f"libpass bcrypt_sha256 hash({p!r}, salt='${pre}$..') = {h!r} does not verify under {side}"))
+    return out
+
+
+EVALS = {"bsha_prefix": eval_bsha_prefix, "foreign_salt": eval_foreign_salt, "salt_cost": eval_salt_cost, "interop": eval_interop, "fresh": eval_fresh, "identify": eval_identify, "context": eval_context, "farcost": eval_farcost}
 
 
 def replay(case):
@@ -679,6 +700,8 @@ def work(task):
             acc.cls(part, case["fmt"], case["cost"])
         elif part == "foreign_salt":
             acc.cls(part, case["fmt"], case["salt"], case["rounds"])
+        elif part == "bsha_prefix":
+            acc.cls(part, case["prefix"], case["rounds"], case["salt"][:2])
         elif part == "salt_cost":
             acc.cls(part, case["fmt"], case["rounds"], case["salt_cost"], case["salt"][:2])
             acc.axis("salt_cost_vs_hasher", "equal" if case["rounds"] == case["salt_cost"] else "lower" if case["salt_cost"] < case["rounds"] else "higher")
@@ -742,6 +765,10 @@ def run(ctx):
     for f in FORMATS:
         for cost in FAR_COSTS[KIND[f]]:
             cases.append({"part": "farcost", "fmt": f, "cost": cost, "seed": seed})
+    for pre in ("2a", "2y", "2b"):
+        for R in (4, 5):
+            for v in range(2):
+                cases.append({"part": "bsha_prefix", "password": PW, "salt": HS.make_salt("bcrypt", 22, seed, v), "rounds": R, "prefix": pre})
     for f in FORMATS:
         if KIND[f] == "sha":
             for salt in FOREIGN_SALTS:
